@@ -42,15 +42,17 @@ from vf.models import c12_extract as X
 PROPERTY = "C12"
 LEVEL = "exploration"
 PARALLEL = True
-RULE = ("records of 2-12 kb of random DNA with planted genes (real CDSFeatures, sense codons + stop, 1-3 exons, either "
+RULE = ("records of 1-12 kb of random DNA with planted genes (real CDSFeatures, sense codons + stop, 1-3 exons, either "
         "strand, a few nested/overlapping genes), full GenBank header annotations incl. the antiSMASH structured "
         "comment, gene features, generic features, CDS motifs, aSDomains, PFAM domains, prepeptides with leader/tail; "
         "1-4 clumps of 1-4 protoclusters (cores of 1-3 genes, neighbourhoods 0-600 bp cutting genes, shared defining "
-        "genes, sideloaded ones) and 0-3 (sideloaded) subregions, grouped by the real create_candidate_clusters / "
-        "create_regions; linear records with clumps anchored at the first/last gene (regions touching an end), circular "
-        "records rotated so that the origin falls inside an area, a gene of an area, an exon, an area edge or anywhere. "
-        "Every region of every record is written. Non-trivial: a region that is not the first of its record or that "
-        "spans the origin; distinct by layout.")
+        "genes, identical coordinates, sideloaded ones) and 0-3 (sideloaded) subregions, grouped by the real "
+        "create_candidate_clusters / create_regions; linear records with clumps anchored at the first/last gene (regions "
+        "touching an end), circular records rotated so that the origin falls inside an area, a gene of an area, a gene cut "
+        "by an area border, an exon, an area edge or anywhere; every tenth world a small ring ('plasmid') whose areas go "
+        "once round it, meeting at or away from the origin. Every region of every record is written, 3 of 4 worlds the "
+        "way main.write_outputs does (one SeqRecord shared by all regions). Non-trivial: a region that is not the first "
+        "of its record or that spans the origin; distinct by layout.")
 ASSUMPTIONS = [
     "A parent feature is 'inside the region' when all its bases are; features cut by a region border are not "
     "required to appear (Biopython drops them) but nothing that is not the image of an inside feature may appear.",
@@ -62,6 +64,8 @@ ASSUMPTIONS = [
     "their coordinates in the extract), since the statement does not fix an order.",
     "Header details of the extract (topology line, NOTE/Orig. start/end comment) are not judged beyond being readable.",
     "Worlds whose construction is refused by antiSMASH itself (region formation is C06's subject) are counted and skipped.",
+    "Files are read back with Bio.SeqIO and loaded with taxon 'bacteria', as antiSMASH does for its own results; "
+    "qualifier values are compared with whitespace removed (GenBank line wrapping), strandless features as forward.",
 ]
 REQUIRED = ["op:file-sequence", "op:feature-same-bases", "op:feature-sequence", "op:numbering", "op:xref:core_location",
             "op:xref:proto_core", "op:xref:protoclusters", "op:xref:candidate_cluster_numbers",
@@ -72,6 +76,7 @@ REQUIRED = ["op:file-sequence", "op:feature-same-bases", "op:feature-sequence", 
             "region:candidates>=2", "region:subregions>=2", "region:subregion-only", "region:with-prepeptide",
             "region:with-prepeptide-after-origin", "region:first-protocluster-number>1",
             "region:first-subregion-number>1", "region:with-identical-coordinate-protoclusters",
+            "region:whole-record",
             "feature:cut-by-region-border", "feature:origin-spanning-gene-cut-by-region-border", "op:header-window",
             "mode:shared", "mode:per-call"]
 
@@ -81,10 +86,7 @@ ADJUSTED = {"core_location", "protocluster_number", "candidate_cluster_number", 
 AREA_TYPES = {"region", "cand_cluster", "protocluster", "proto_core", "subregion"}
 
 
-# --------------------------------------------------------------------------
-# known deviations of the current tree (narrow, mechanism-keyed) are registered at the end of the file
-# --------------------------------------------------------------------------
-
+# (classifiers for the known deviations of the current tree are registered at the end of the file)
 
 # --------------------------------------------------------------------------
 # building the real objects
@@ -751,8 +753,7 @@ def classify_region(ctx, view: RegionView, record):
         ctx.count("region:with-motifs-or-domains")
     if view.cut:
         ctx.count("feature:cut-by-region-border", len(view.cut))
-        if any(f.type == "CDS" and len(f.location.parts) > 1 and f.location.parts[0].start > f.location.parts[-1].start
-               and f.location.strand == 1 for f in view.cut):
+        if any(f.type == "CDS" and X.spans_origin(f.location) for f in view.cut):
             ctx.count("feature:origin-spanning-gene-cut-by-region-border")
 
 
@@ -760,10 +761,10 @@ def run(ctx):
     logging.disable(logging.ERROR)   # antiSMASH logs refused worlds (overlapping regions); they are counted instead
     workdir = tempfile.mkdtemp(prefix="vf-c12-")
     try:
-        n = ctx.quota(400, 16000)
+        n = ctx.quota(400, 12000)
         for i in ctx.cases(n, every=4):
             rng = ctx.rng("world", i)
-            size = "large" if (ctx.tier == "thorough" and i % 10 == 0) else ("plasmid" if i % 16 == 5 else "normal")
+            size = "large" if (ctx.tier == "thorough" and i % 10 == 0) else ("plasmid" if i % 10 == 5 else "normal")
             world = W.gen_world(rng, size)
             run_world(ctx, world, workdir)
     finally:
@@ -868,16 +869,6 @@ def _c12_consequence(clause, facts):
         nothing, or anything unaccounted for, was wrong. """
     return clause.startswith("reload-") and facts.get("file_level_failures_all_known") is True \
         and bool(facts.get("file_level_failures"))
-
-
-@findings.classifier("c12_whole_ring_region_written_empty")
-def _c12_whole_ring(clause, facts):
-    """ a region covering a whole circular record from a point other than the origin has start == end;
-        RegionData.crosses_origin() (start > end) says no and record[start:end] is empty: the file has no sequence
-        and no features. Must not hide: anything in a file that is not empty, or for any other window. """
-    return (facts.get("window_is_whole_ring_with_seam_off_origin") is True and facts.get("extract_is_empty") is True
-            and clause in ("file-sequence", "feature-missing-or-moved", "region-feature-count", "reload-region-count",
-                           "reload-fails", "header-window"))
 
 
 @findings.classifier("c12_twin_areas_swap_on_load")
